@@ -92,9 +92,9 @@ func c01Hub(x *Ctx) {
 		}
 		switch storedThenWithdrawn {
 		case "cancel", "cancel-during-dial":
-			a.hub.CancelPairingWithSKI(r.spell(b.ski))
+			a.hub.CancelPairingWithSKI(r.spellP(b.ski, 0.5))
 		case "unregister", "unregister-during-dial":
-			a.hub.UnregisterRemoteSKI(r.spell(b.ski))
+			a.hub.UnregisterRemoteSKI(r.spellP(b.ski, 0.5))
 		}
 		if duringDial {
 			withdrawnSeq = x.Ev("trust-withdrawn", storedThenWithdrawn, "", 0)
